@@ -179,8 +179,11 @@ func (m *monitor) runHistory(hc histCase) (judged int, nontrivial bool) {
 		case "fail":
 			rd.failAt = st.K
 			rd.failErr = errInjected
-			if st.FailErr == "unexpectedEOF" {
+			switch st.FailErr {
+			case "unexpectedEOF":
 				rd.failErr = io.ErrUnexpectedEOF
+			case "wrappedEOF":
+				rd.failErr = fmt.Errorf("connection reset by peer: %w", io.EOF)
 			}
 			rd.failWithData = st.FailWithData
 		case "cancel":
@@ -246,7 +249,13 @@ func (m *monitor) runHistory(hc histCase) (judged int, nontrivial bool) {
 					m.failedMid.Add(1)
 				}
 			} else {
-				m.failNil.Add(1) // reader error swallowed: the property does not say what is returned then
+				m.failNil.Add(1)
+				// the reader failed before the end of the content and a digest comes back as if nothing had happened:
+				// it is "the digest returned for" this content, and it is not its reference digest
+				if got != want {
+					m.r.Violation(vrun.Sig{"ep": ep, "effect": "digest-of-a-truncated-content-returned-without-error", "pre": "reader fails with " + st.FailErr},
+						fmt.Sprintf("%s: the reader failed after %d of %d bytes (%s) yet %s returned the digest %s with a nil error (reference digest of the content: %s)", a.Name, res.Delivered, len(data), st.FailErr, st.API, got, want), witness())
+				}
 			}
 		case "cancel":
 			if cerr != nil {
